@@ -186,7 +186,7 @@ impl PagedResults {
 //@ ret r
 //@ insert after "ldap.controls = Some(controls.clone());"
         proof { assert(ldap.controls->0@ =~= controls@); }
-//@ insert before "if found_pr {"
+//@ insert after-let controls
         proof {
             if !found_pr && stream_ldap.controls is Some { let v = stream_ldap.controls->0@; lemma_without_paging_id(v, v.len()); assert(v.take(v.len() as int) =~= v); }
         }
